@@ -457,13 +457,29 @@ func (fx *FnExec) enterLoop(b *ssa.BasicBlock, li *loopInfo, st *blockState) {
 		sv := fx.term(fx.val(src))
 		// the destination expression may be a field load inside the loop: evaluate it here
 		var dv string
-		if u, ok := dst.(*ssa.UnOp); ok && li.body[u.Block().Index] {
-			if fa, ok := u.X.(*ssa.FieldAddr); ok {
-				base := fx.val(fa.X)
-				pt := fa.X.Type().Underlying().(*types.Pointer).Elem()
-				stt := pt.Underlying().(*types.Struct)
-				dv = fx.load(&Place{Kind: PField, Ref: fx.term(base), Struct: stt, Field: fa.Field, Elem: stt.Field(fa.Field).Type(), SName: fx.W.structName(pt)})
+		// (a chain of field loads, x.a.b, when all of them stand inside the loop)
+		var evalIn func(v ssa.Value, depth int) string
+		evalIn = func(v ssa.Value, depth int) string {
+			if u, ok := v.(*ssa.UnOp); ok && u.Op == token.MUL && li.body[u.Block().Index] && depth < 4 {
+				if fa, ok := u.X.(*ssa.FieldAddr); ok {
+					base := evalIn(fa.X, depth+1)
+					if base == "" {
+						return ""
+					}
+					pt := fa.X.Type().Underlying().(*types.Pointer).Elem()
+					stt := pt.Underlying().(*types.Struct)
+					ft := stt.Field(fa.Field).Type()
+					return fx.loaded(ft, fx.load(&Place{Kind: PField, Ref: base, Struct: stt, Field: fa.Field, Elem: ft, SName: fx.W.structName(pt)}))
+				}
+				return ""
 			}
+			if in, ok := v.(ssa.Instruction); ok && in.Block() != nil && li.body[in.Block().Index] {
+				return ""
+			}
+			return fx.term(fx.val(v))
+		}
+		if u, ok := dst.(*ssa.UnOp); ok && li.body[u.Block().Index] {
+			dv = evalIn(u, 0)
 		}
 		if dv == "" {
 			dv = fx.term(fx.val(dst))
